@@ -329,6 +329,24 @@ caught*: C20-1 (age no longer trimmed at a burial-only death estimate: a person
 buried at 60 is "too old" today), C20-2 (`break` for `continue` in the sibling
 pair scan: pairs missed depending on child order).
 """
+
+# what rounds 5 and 6 of the sub-agent changes added to each check (see §3.2e/f)
+later={
+'C05':"Since round 5 every day, month-year and year is also read from text (three spellings) and must have the bounds and `Years()` of the directly built date; consecutive days are also compared through `DateRange`, `DateNode`, `DateNodes.Minimum/Maximum`.",
+'C06':"Since round 5 the operands also carry constraint words (about/before/after), which do not change the days of a period.",
+'C07':"Since round 5 every third tree is also compared by 8 goroutines at once on freshly decoded nodes (`parallel-evaluation-differs`).",
+'C08':"Since round 5 a fifth workload, `wide-facts`: parents with 12-36 pairwise different children, residences and events that share their line, events with several `TYPE` lines.",
+'C10':"Since round 5 dangling references are signed by the input they come from; the listed finding is about references of the right input only.",
+'C11':"Since round 5 scenario `duplicated-unique-ids` also has merged records with two identifiers that lead to two records of the other side.",
+'C12':"Since round 5: strings on both sides of the 64-byte boundary, weights of exactly 0, the weighted similarity on synthetic components.",
+'C13':"Since round 5 the alphabet has the edit 'add an individual under a taken pointer, delete one of the two'.",
+'C14':"Since round 5 a 30th fault class: every other legal event and attribute tag under people and families.",
+'C15':"Since round 5: ill-typed stages evaluated once per item (`Only`, objects, `Combine`) over lists of up to 60+ items.",
+'C16':"Since round 5: law `inlining-per-item` (variables looked up once per item), every eighth document has 150 people.",
+'C18':"Since round 5: stray bytes that are not valid UTF-8 in front of markup characters; documents from all-dead to all-living.",
+}
+for k,v in later.items():
+    blocks[k]=blocks[k].rstrip("\n")+"\n"+v+"\n"
 ids=sorted(blocks)
 for i,pid in enumerate(ids):
     # find start of this section and start of next
